@@ -178,6 +178,7 @@ Qed.
 (** * Initialize / UpgradeState of a validated client state *)
 Section Safe.
   Variable now : N.
+  Variable native : bytes.
 
   (** Both slicings of the seal are in bounds: by ecrecover's own length test (regenerated) or by the length the
       validation guarantees - whichever the regenerated code provides (obligation bsc_guards_ecrecover). *)
@@ -228,10 +229,24 @@ Section Safe.
     cbn. apply store_wf_set_signer. unfold store_wf; cbn. apply forallb_fold_remove. exact Hwf.
   Qed.
 
-  Lemma eth_initialize_safe st hd tr : validate_eth hd tr = Ok tt -> store_wf st -> osafe store_wf (eth_initialize st hd).
+  (** checkConsensusRoot (aa5560b) converts the header before it compares the roots: the conversion cannot panic for a
+      validated client state (bloom length, regenerated guard), for ANY consensus state. *)
+  Lemma eth_check_root_safe hd tr k : validate_eth hd tr = Ok tt -> osafe (fun _ => True) (eth_check_root hd k).
   Proof.
-    intros Hv Hwf. apply validate_eth_facts in Hv. unfold eth_initialize, to_eth_header.
-    apply N.ltb_ge in Hv. rewrite Hv. cbn. exact Hwf.
+    intros Hv. apply validate_eth_facts in Hv. unfold eth_check_root, to_eth_header.
+    apply N.ltb_ge in Hv. rewrite Hv. cbn [obind].
+    destruct (bytes_eqb (bytes_to_hash (cons_root k)) (bytes_to_hash (hd_root hd))); exact I.
+  Qed.
+
+  Lemma eth_initialize_nopanic st hd tr k : validate_eth hd tr = Ok tt -> osafe (fun st' => st' = st) (eth_initialize false st hd k).
+  Proof.
+    intros Hv. unfold eth_initialize. eapply osafe_bind; [eapply eth_check_root_safe; exact Hv|]. intros _ _.
+    apply validate_eth_facts in Hv. unfold to_eth_header. apply N.ltb_ge in Hv. rewrite Hv. reflexivity.
+  Qed.
+
+  Lemma eth_initialize_safe st hd tr k : validate_eth hd tr = Ok tt -> store_wf st -> osafe store_wf (eth_initialize false st hd k).
+  Proof.
+    intros Hv Hwf. eapply osafe_weaken; [|eapply eth_initialize_nopanic; exact Hv]. intros a ->. exact Hwf.
   Qed.
 
   Lemma initialize_safe st cs k :
@@ -320,10 +335,11 @@ Section Safe.
   Qed.
 
   Theorem handle_xprop_safe s p :
-    xprop_validate p = Ok tt -> xstate_wf s -> osafe xstate_wf (handle_xprop now false s p).
+    xprop_validate p = Ok tt -> xstate_wf s -> osafe xstate_wf (handle_xprop now false native s p).
   Proof.
     intros Hv Hwf. destruct p as [t d chain cs k|t d chain cs k|t d chain cs k|t d a dec chains n]; [cbn in Hv | cbn in Hv | cbn in Hv |].
     - apply client_prop_validate_facts in Hv as (c & -> & Hc). unfold handle_xprop, handle_xprop_gen.
+      cbn [negb andb]. destruct (bytes_eqb chain native); [exact I|].
       destruct (c_client (xget s chain)); [exact I|]. cbn [unpack obind].
       eapply osafe_bind; [apply unpack_safe|]. intros kk _.
       eapply osafe_bind; [apply cons_type_ok_safe|]. intros _ _.
@@ -347,7 +363,7 @@ Section Safe.
   Fixpoint run_gov (s : xstate) (ps : list xprop) : outcome xstate :=
     match ps with
     | [] => Ok s
-    | p :: t => match gov_exec (handle_xprop now false) s p with Ok s' => run_gov s' t | Err => Err | Panic => Panic end
+    | p :: t => match gov_exec (handle_xprop now false native) s p with Ok s' => run_gov s' t | Err => Err | Panic => Panic end
     end.
 
   Theorem run_gov_safe ps : forall s,
@@ -355,7 +371,7 @@ Section Safe.
   Proof.
     induction ps as [|p t IH]; cbn; intros s Hv Hwf; [eauto|].
     pose proof (handle_xprop_safe s p (Hv p (or_introl eq_refl)) Hwf) as H.
-    unfold gov_exec. destruct (handle_xprop now false s p) as [s'| |]; cbn in H; [| |contradiction].
+    unfold gov_exec. destruct (handle_xprop now false native s p) as [s'| |]; cbn in H; [| |contradiction].
     - apply IH; [intros q Hq; apply Hv; right; exact Hq | exact H].
     - apply IH; [intros q Hq; apply Hv; right; exact Hq | exact Hwf].
   Qed.
@@ -474,12 +490,12 @@ Proof.
 Qed.
 
 (** * Monitor soundness: the executable monitor accepts what the model produces *)
-Lemma mon_steps_sound_x now s p i :
-  xstate_wf s -> mon_steps i [(oclass (xprop_validate p), oclass (handle_xprop now false s p))] = [].
+Lemma mon_steps_sound_x now native s p i :
+  xstate_wf s -> mon_steps i [(oclass (xprop_validate p), oclass (handle_xprop now false native s p))] = [].
 Proof.
   intro Hwf. cbn. destruct (xprop_validate p) as [[]| |] eqn:Ev; cbn; try reflexivity.
-  pose proof (handle_xprop_safe now s p Ev Hwf) as H.
-  destruct (handle_xprop now false s p); cbn in *; [reflexivity | reflexivity | contradiction].
+  pose proof (handle_xprop_safe now native s p Ev Hwf) as H.
+  destruct (handle_xprop now false native s p); cbn in *; [reflexivity | reflexivity | contradiction].
 Qed.
 
 (** * The repaired recent-signer key parser: no state invariant is needed *)
@@ -493,6 +509,7 @@ Qed.
 
 Section SafeStrict.
   Variable now : N.
+  Variable native : bytes.
   Notation T := (fun _ : cstore => True).
 
   Lemma bsc_initialize_nopanic st hd cid epoch tr seal :
@@ -527,7 +544,7 @@ Section SafeStrict.
     intros Hv. destruct cs as [c n d t u dr l sp|hd cid epoch tr seal|hd tr|a]; unfold validate_client, validate_client_gen in Hv; cbn [initialize_gen].
     - destruct k; cbn; auto.
     - eapply bsc_initialize_nopanic; eassumption.
-    - apply validate_eth_facts in Hv. unfold eth_initialize, to_eth_header. apply N.ltb_ge in Hv. rewrite Hv. exact I.
+    - eapply osafe_weaken; [|eapply eth_initialize_nopanic; exact Hv]. intros; exact I.
     - exact I.
   Qed.
 
@@ -536,7 +553,7 @@ Section SafeStrict.
     intros Hv. destruct cs as [c n d t u dr l sp|hd cid epoch tr seal|hd tr|a]; unfold validate_client, validate_client_gen in Hv; cbn [upgrade_state_gen].
     - exact I.
     - apply bsc_upgrade_strict_nopanic; assumption.
-    - apply validate_eth_facts in Hv. unfold eth_initialize, to_eth_header. apply N.ltb_ge in Hv. rewrite Hv. exact I.
+    - eapply osafe_weaken; [|eapply eth_initialize_nopanic; exact Hv]. intros; exact I.
     - exact I.
   Qed.
 
@@ -544,11 +561,12 @@ Section SafeStrict.
     osafe (fun _ => True) o -> osafe (fun _ => True) (match o with Ok a => Ok (f a) | Err => Err | Panic => Panic end).
   Proof. destruct o; cbn; auto. Qed.
 
-  Theorem handle_xprop_strict_safe s p : xprop_validate p = Ok tt -> handle_xprop now true s p <> Panic.
+  Theorem handle_xprop_strict_safe s p : xprop_validate p = Ok tt -> handle_xprop now true native s p <> Panic.
   Proof.
     intros Hv. apply (osafe_not_panic (fun _ => True)).
     destruct p as [t d chain cs k|t d chain cs k|t d chain cs k|t d a dec chains n]; [cbn in Hv | cbn in Hv | cbn in Hv |].
     - apply client_prop_validate_facts in Hv as (c & -> & Hc). unfold handle_xprop, handle_xprop_gen.
+      cbn [negb andb]. destruct (bytes_eqb chain native); [exact I|].
       destruct (c_client (xget s chain)); [exact I|]. cbn [unpack obind].
       eapply osafe_bind; [apply unpack_safe|]. intros kk _.
       eapply osafe_bind; [apply cons_type_ok_safe|]. intros _ _.
@@ -574,26 +592,26 @@ Section SafeStrict.
   Qed.
 End SafeStrict.
 
-Lemma mon_steps_sound_x_strict now s p i :
-  mon_steps i [(oclass (xprop_validate p), oclass (handle_xprop now true s p))] = [].
+Lemma mon_steps_sound_x_strict now native s p i :
+  mon_steps i [(oclass (xprop_validate p), oclass (handle_xprop now true native s p))] = [].
 Proof.
   cbn. destruct (xprop_validate p) as [[]| |] eqn:Ev; cbn; try reflexivity.
-  pose proof (handle_xprop_strict_safe now s p Ev) as H.
-  destruct (handle_xprop now true s p); cbn in *; [reflexivity | reflexivity | congruence].
+  pose proof (handle_xprop_strict_safe now native s p Ev) as H.
+  destruct (handle_xprop now true native s p); cbn in *; [reflexivity | reflexivity | congruence].
 Qed.
 
 (** Histories executed by gov.EndBlocker with the handlers of /repo HEAD: any start state. *)
-Fixpoint run_gov_head (now : N) (s : xstate) (ps : list xprop) : outcome xstate :=
+Fixpoint run_gov_head (now : N) (native : bytes) (s : xstate) (ps : list xprop) : outcome xstate :=
   match ps with
   | [] => Ok s
-  | p :: t => match gov_exec (handle_xprop now true) s p with Ok s' => run_gov_head now s' t | Err => Err | Panic => Panic end
+  | p :: t => match gov_exec (handle_xprop now true native) s p with Ok s' => run_gov_head now native s' t | Err => Err | Panic => Panic end
   end.
 
-Theorem run_gov_head_safe now ps : forall s,
-  (forall p, In p ps -> xprop_validate p = Ok tt) -> exists s', run_gov_head now s ps = Ok s'.
+Theorem run_gov_head_safe now native ps : forall s,
+  (forall p, In p ps -> xprop_validate p = Ok tt) -> exists s', run_gov_head now native s ps = Ok s'.
 Proof.
   induction ps as [|p t IH]; cbn; intros s Hv; [eauto|].
-  pose proof (handle_xprop_strict_safe now s p (Hv p (or_introl eq_refl))) as H.
-  unfold gov_exec. destruct (handle_xprop now true s p) as [s'| |]; [| |congruence];
+  pose proof (handle_xprop_strict_safe now native s p (Hv p (or_introl eq_refl))) as H.
+  unfold gov_exec. destruct (handle_xprop now true native s p) as [s'| |]; [| |congruence];
     apply IH; intros q Hq; apply Hv; right; exact Hq.
 Qed.
